@@ -7,6 +7,7 @@ import (
 	"hash/fnv"
 	"image"
 	"image/color"
+	"io"
 	"math/rand"
 	"time"
 
@@ -291,6 +292,24 @@ var activeRun *vx.Run
 // property under check (no hang is ever allowed) and the check ends at once, because the stuck goroutine cannot be
 // stopped and would distort everything measured afterwards.
 func guardedDecode(data []byte) (image.Image, error) {
+	return guardedDecodeFrom(data, bytes.NewReader(data))
+}
+
+// shortReader delivers its bytes through an io.Reader that has no Len method and returns at most 4093 bytes per call:
+// the way a file, a pipe or a network stream looks to the package.
+type shortReader struct{ r io.Reader }
+
+func (s *shortReader) Read(p []byte) (int, error) {
+	if len(p) > 4093 {
+		p = p[:4093]
+	}
+	return s.r.Read(p)
+}
+
+func streamOf(data []byte) io.Reader { return &shortReader{bytes.NewReader(data)} }
+
+// guardedDecodeFrom is guardedDecode reading from r (which must deliver data).
+func guardedDecodeFrom(data []byte, rd io.Reader) (image.Image, error) {
 	type res struct {
 		im  image.Image
 		err error
@@ -302,7 +321,7 @@ func guardedDecode(data []byte) (image.Image, error) {
 				ch <- res{nil, fmt.Errorf("panic: %v", r)}
 			}
 		}()
-		im, err := webp.Decode(bytes.NewReader(data))
+		im, err := webp.Decode(rd)
 		ch <- res{im, err}
 	}()
 	limit := 60*time.Second + time.Duration(len(data))*time.Microsecond
